@@ -154,4 +154,84 @@ def member? (name : String) : Option Member := members.find? (fun m => m.name ==
 /-- the row, or an empty row for an unknown name -/
 def memberD (name : String) : Member := (member? name).getD ⟨name, none, [], [], none⟩
 
+/-! ### the solver object and its regularisation list (round 4; seeded/C04-seed4)
+
+`LocalNetwork` owns the solver object `least_squares`.  `set_algorithm()` creates a NEW object — which regularises
+over ALL unknowns until it is told otherwise — and calls `update(Points)`.  `project_equations()` rebuilds the list
+`min_x_` (the constrained coordinates of a free network) and hands it to the solver: `least_squares->min_x(min_n_,
+min_x_)`, on EVERY run.  Which list the CURRENT solver object holds is therefore state of the network, separate from
+the list the network computed; the adjustment artefacts (level 3) carry, as ghost, the list the solver held when it
+produced them.  `handOnChange` is the seeded variant that hands the list over only when it differs from the previous
+run's: after `set_algorithm` the new object is never told. -/
+
+/-- what a solver object was told to regularise over -/
+inductive SList
+  | dflt                   -- never told: the solver's default, ALL unknowns
+  | given (content : Nat)  -- `min_x(n, list)` with this list (identified by its content)
+deriving Repr, DecidableEq
+
+structure MInput where
+  net : NInput
+  /-- content of the list `project_equations` computes, a function of the configuration the numbering depends on
+      (levels ≤ 2); arbitrary in the theorems (a constant function = "the list does not change", the realistic case
+      across `set_algorithm`) -/
+  lst : Cfg → Nat
+
+structure MState where
+  net : NState
+  /-- the list the CURRENT solver object holds -/
+  held : SList
+  /-- `min_x_`/`min_n_` of the network: the list computed by the last `project_equations` (`none` = nullptr) -/
+  netList : Option Nat
+  /-- ghost: the list the solver held when it produced the adjustment artefacts -/
+  a3list : Option SList
+deriving Repr, DecidableEq
+
+def minit (c : Cfg) : MState := { net := ninit c, held := .dflt, netList := none, a3list := none }
+
+inductive MOp
+  | net (op : NOp)
+  | setAlgorithm            -- `set_algorithm(name)`: new solver object, `update(Points)`
+deriving Repr, DecidableEq
+
+/-- the code: `least_squares->min_x(min_n_, min_x_)` on every run of `project_equations` -/
+def handCode (_prev : Option Nat) (new : Nat) (_held : SList) : SList := .given new
+
+/-- seeded/C04-seed4: only when the list differs from the previous run's ("the solver keeps its list over reset()") -/
+def handOnChange (prev : Option Nat) (new : Nat) (held : SList) : SList :=
+  if prev = some new then held else .given new
+
+/-- the state in which a member reads: after its unconditional prefix (no compute function runs for the other ops) -/
+def prefixState (inp : NInput) (s : NState) : NOp → NState
+  | .call m => (prefixRun inp m s).1
+  | _ => s
+
+def readsAdjustment : NOp → Bool
+  | .call m => m.reads.contains 3
+  | _ => false
+
+/-- one call.  `project_equations` ran iff `tst_rov_opr_` went from false to true during the prefix (its body is the
+    only code that sets the flag), `vyrovnani_` produced new artefacts iff `tst_vyrovnani_` did.  The second component
+    of the answer is the list held by the solver that produced the adjustment artefacts the member reads. -/
+def mstepWith (hand : Option Nat → Nat → SList → SList) (inp : MInput) (m : MState) : MOp → MState × (NOut × Option SList)
+  | .setAlgorithm =>
+    ({ m with net := (nstep inp.net m.net (.change 0)).1, held := .dflt }, (.ok, none))
+  | .net op =>
+    let p := prefixState inp.net m.net op
+    let ran := !m.net.f2 && p.f2
+    let adj := !m.net.f3 && p.f3
+    let new := inp.lst (snap m.net.cfg 2)
+    let held := if ran then hand m.netList new m.held else m.held
+    let netList := if ran then some new else m.netList
+    let a3list := if adj then some held else m.a3list
+    ({ net := (nstep inp.net m.net op).1, held := held, netList := netList, a3list := a3list },
+     ((nstep inp.net m.net op).2, if readsAdjustment op then a3list else none))
+
+def mrunWith (hand : Option Nat → Nat → SList → SList) (inp : MInput) (m : MState) : List MOp → MState
+  | [] => m
+  | o :: os => mrunWith hand inp (mstepWith hand inp m o).1 os
+
+def mstep : MInput → MState → MOp → MState × (NOut × Option SList) := mstepWith handCode
+def mrun : MInput → MState → List MOp → MState := mrunWith handCode
+
 end Gama.C04.Net
